@@ -305,4 +305,80 @@ theorem decF_exact (m : Int) (h0 : 0 ≤ m) (h1 : m < 4294967296000000) : decF (
         _ < 1/2 := by norm_num
     rw [rne_of_near _ ρ hnear, hm]
 
+/-! ### sign, truncation, `timedelta(seconds=·)` -/
+
+theorem rne_nonneg (q : Rat) (h : 0 ≤ q) : 0 ≤ rne q := by
+  unfold rne
+  simp only [floor_eq]
+  have hf : 0 ≤ ⌊q⌋ := Int.floor_nonneg.mpr h
+  split_ifs <;> omega
+
+theorem fl_nonneg (x : Rat) (h : 0 ≤ x) : 0 ≤ fl x := by
+  unfold fl
+  split_ifs with h0 h1
+  · exact le_refl _
+  · exact absurd h (not_le.mpr h1)
+  · have hs : 0 < pow2 (ilog2 x - 52) := pow2_pos _
+    have : 0 ≤ rne (x / pow2 (ilog2 x - 52)) := rne_nonneg _ (div_nonneg h hs.le)
+    have : (0:Rat) ≤ (rne (x / pow2 (ilog2 x - 52)) : Rat) := by exact_mod_cast this
+    positivity
+
+theorem trunc_of_nonneg (r : Rat) (h : 0 ≤ r) : trunc r = ⌊r⌋ := by
+  unfold trunc
+  rw [if_neg (not_lt.mpr h)]; rfl
+
+/-- `int(x)` is within 1 of `x` -/
+theorem trunc_err (r : Rat) : |r - (trunc r : Rat)| < 1 := by
+  unfold trunc
+  simp only [floor_eq]
+  split_ifs with h
+  · have h1 : (⌊-r⌋ : Rat) ≤ -r := Int.floor_le _
+    have h2 : -r < ⌊-r⌋ + 1 := Int.lt_floor_add_one _
+    rw [abs_lt]; push_cast; constructor <;> linarith
+  · have h1 : (⌊r⌋ : Rat) ≤ r := Int.floor_le _
+    have h2 : r < ⌊r⌋ + 1 := Int.lt_floor_add_one _
+    rw [abs_lt]; constructor <;> linarith
+
+/-- for a non-negative double, `timedelta(seconds=r)` and `fromtimestamp(r)` do the same
+    arithmetic -/
+theorem decF_eq_td (m : Rat) (h : 0 ≤ m) : decF m = tdOfSeconds (fl (m / 1000000)) := by
+  have hr : 0 ≤ fl (m / 1000000) := fl_nonneg _ (by positivity)
+  unfold decF tdOfSeconds modf fmul
+  simp only [trunc_of_nonneg _ hr, floor_eq]
+
+/-- `timedelta(seconds=td.total_seconds()) == td` for every `0 ≤ td < 2^32 s` (136 years) -/
+theorem td_total_roundtrip (D : Int) (h0 : 0 ≤ D) (h1 : D < 4294967296000000) :
+    tdOfSeconds (totalSeconds D) = D := by
+  have := decF_exact D h0 h1
+  rw [decF_eq_td _ (by exact_mod_cast h0)] at this
+  exact this
+
+/-- `timedelta(seconds=r)` is `r` to the microsecond, for every rational (double) `r`:
+    off by at most half a microsecond plus the rounding error of one product below 2^20 -/
+theorem td_near (r : Rat) : |(tdOfSeconds r : Rat) - r * 1000000| ≤ 1/2 + 1/17179869184 := by
+  unfold tdOfSeconds modf fmul
+  simp only
+  set i := trunc r with hi
+  set y := (r - (i:Rat)) * 1000000 with hy
+  have hfp := trunc_err r
+  rw [← hi] at hfp
+  have hylt : |y| < pow2 20 := by
+    have p20 : pow2 20 = 1048576 := by rw [pow2_eq]; norm_num
+    rw [p20, hy, abs_mul]
+    have : |(1000000:Rat)| = 1000000 := abs_of_pos (by norm_num)
+    rw [this]
+    have := abs_nonneg (r - (i:Rat))
+    nlinarith
+  have e1 := fl_err_lt' y 20 hylt
+  have p34 : pow2 (20 - 54) = 1 / 17179869184 := by rw [pow2_eq]; norm_num
+  rw [p34] at e1
+  have e2 := rne_err (fl y)
+  have : ((i * 1000000 + rne (fl y) : Int) : Rat) - r * 1000000
+      = ((rne (fl y) : Rat) - fl y) + (fl y - y) := by
+    rw [hy]; push_cast; ring
+  rw [this]
+  calc |((rne (fl y) : Rat) - fl y) + (fl y - y)| ≤ |(rne (fl y) : Rat) - fl y| + |fl y - y| :=
+        abs_add_le _ _
+    _ ≤ 1/2 + 1/17179869184 := add_le_add e2 e1
+
 end Aw.Fl
